@@ -6,7 +6,7 @@ prop("C01", pkg="c01",
           "on an identically built value (error presence, then bytes). Non-trivial = the type has a constructor or is string/float; distinct = FNV-64 of "
           "(type descriptor, setting, value recipe).",
      quick=dict(shards=16, scale=1, timeout=900),
-     thorough=dict(shards=16, rounds=6, scale=1.5, timeout=3000),
+     thorough=dict(shards=16, rounds=5, scale=1.2, timeout=3000),
      fuzz=[('FuzzMarshalAnyDiff', 90)],
      builds=[dict(name="default", tags=[], race=False), dict(name="purego", tags=["purego"], race=False, thorough_only=True)],
      technique="rapid property-based differential testing against encoding/json (generated types x values x encoder settings)",
